@@ -495,8 +495,8 @@ func checkC18(c *runCtx) {
 	}
 	two := []gIface{{Name: "eth0", Up: true, Addrs: []string{"10.0.0.1"}}, {Name: "eth1", Up: true, Addrs: []string{"192.168.1.2"}}}
 	if os.Getenv("VERIF_SHARD") == "" {
-		vtSearch(c, p, vtSpec{Name: "cycle control: host", Model: "gather", Cfg: gatherCfg{Ifaces: two, NetTypes: []string{"udp4"}, CandTypes: []string{"host"}, Depth: depth}, Deadline: dl})
-		vtSearch(c, p, vtSpec{Name: "cycle control: host + srflx", Model: "gather", Cfg: gatherCfg{Ifaces: gIfacesBasic, NetTypes: []string{"udp4"}, CandTypes: []string{"host", "srflx"}, URLs: []string{"stun:198.51.100.1:3478"}, Depth: depth}, Deadline: dl})
+		vtSearch(c, p, vtSpec{Name: "cycle control: host", Model: "gather", Finish: true, Cfg: gatherCfg{Ifaces: two, NetTypes: []string{"udp4"}, CandTypes: []string{"host"}, Depth: depth}, Deadline: dl})
+		vtSearch(c, p, vtSpec{Name: "cycle control: host + srflx", Model: "gather", Finish: true, Cfg: gatherCfg{Ifaces: gIfacesBasic, NetTypes: []string{"udp4"}, CandTypes: []string{"host", "srflx"}, URLs: []string{"stun:198.51.100.1:3478"}, Depth: depth}, Deadline: dl})
 		if os.Getenv("VERIF_VARIANT") == "instr" {
 			b := 2
 			if !c.quick() {
